@@ -297,6 +297,8 @@ def no_mutation(ctx, rule="C03.no-mutation"):
 
 
 def rules(ctx):
+    from . import c09
+    c09.writers(ctx, "C03.effects")
     merge_family(ctx)
     merge_guards(ctx)
     wire_uniqueness(ctx)
